@@ -610,4 +610,45 @@ example : let B : Box := ⟨⟨2, 0, 0⟩, ⟨1, 3, 0⟩, ⟨1, 1, 4⟩⟩
     B.det ≠ 0 ∧ cellCounts B 1 = (1, 2, 4) ∧
     closeB .tri B 1 (fun i => if i = 0 then ⟨1/10, 1/10, 1/10⟩ else ⟨1, 1, 39/10⟩) 0 1 = true := by decide +kernel
 
+
+/-! ## three-body search, distinct outer lists: the scan reports exactly the triples the property names -/
+
+/-- **the three-type three-body scan lists exactly the triples (centre i, j, k)** with the centre in list 1, j in list 2, k in list 3, three
+    different beads, both centre distances below the cutoff and no excluded pair among the three — membership in `bruteTriples … false`
+    (the model of `NBList_3Body::Generate(list1, list2, list3)`, which the driver compares with the real grid and simple searches) -/
+theorem bruteTriples_mem_distinct (close excl : Nat → Nat → Bool) (l1 l2 l3 : List Nat) (i j k : Nat) :
+    (i, j, k) ∈ bruteTriples close excl l1 l2 l3 false ↔
+      i ∈ l1 ∧ j ∈ l2 ∧ k ∈ l3 ∧ i ≠ j ∧ k ≠ i ∧ k ≠ j ∧ close i j = true ∧ close i k = true ∧
+        (excl i j || excl i k || excl j k) = false := by
+  unfold bruteTriples
+  simp only [List.mem_flatMap, Bool.false_eq_true, if_false]
+  constructor
+  · rintro ⟨a, ha, ⟨b, bx⟩, hb, h⟩
+    split at h
+    · cases h
+    · rename_i hne
+      simp only [List.mem_map, List.mem_filter] at h
+      obtain ⟨c, ⟨hc, hcond⟩, heq⟩ := h
+      simp only [Prod.mk.injEq] at heq
+      obtain ⟨rfl, rfl, rfl⟩ := heq
+      have hbm : b ∈ l2 := by
+        have := List.mem_zipIdx hb
+        simp at this
+        obtain ⟨hlt, hg⟩ := this
+        rw [hg]; exact List.getElem_mem hlt
+      simp only [Bool.and_eq_true, bne_iff_ne, ne_eq, Bool.not_eq_true'] at hcond
+      obtain ⟨⟨⟨⟨h1, h2⟩, h3⟩, h4⟩, h5⟩ := hcond
+      refine ⟨ha, hbm, hc, by simpa using hne, h1, h2, h3, h4, h5⟩
+  · rintro ⟨hi, hj, hk, hij, hki, hkj, c1, c2, ex⟩
+    obtain ⟨jx, hjx, hget⟩ := List.getElem_of_mem hj
+    refine ⟨i, hi, (j, jx), ?_, ?_⟩
+    · rw [List.mem_zipIdx_iff_getElem?]; simp [hget, hjx]
+    · have : (i == j) = false := by simpa using hij
+      simp only [this, Bool.false_eq_true, if_false, List.mem_map, List.mem_filter]
+      refine ⟨k, ⟨hk, ?_⟩, rfl⟩
+      simp [hki, hkj, c1, c2, ex]
+
+/-! non-vacuity: centre 0, outer beads 1 (list 2) and 2 (list 3), everything close, nothing excluded -/
+example : (0, 1, 2) ∈ bruteTriples (fun _ _ => true) (fun _ _ => false) [0] [1] [2] false := by decide
+
 end Votca.C03
